@@ -109,6 +109,8 @@ func runScenario(name string, cfgSeed uint64, ch func(int, []int) int, grace tim
 			cfg.writers[rng.Intn(len(cfg.writers))].insert = true
 		}
 		return runSnap(cfg, ch, grace)
+	case "keys":
+		return runKeys(int(cfgSeed%6), ch, grace)
 	default:
 		n := 2 + rng.Intn(2)
 		cfg := insCfg{inserters: n, deleter: rng.Chance(40), counter: rng.Chance(50), keyed: rng.Chance(25)}
@@ -137,7 +139,7 @@ func cmdSched(args []string) {
 	var lockTraces []string
 	var lockOrigin []string
 	record := func(name string, cfgSeed uint64, o *scenOut) {
-		if !strings.Contains(o.Desc, "ranger=true") && name != "ins" {
+		if !strings.Contains(o.Desc, "ranger=true") && name != "ins" && name != "keys" {
 			for c, evs := range lockEvents(o.Trace) {
 				lockTraces = append(lockTraces, "["+strings.Join(evs, "; ")+"]")
 				lockOrigin = append(lockOrigin, fmt.Sprintf("%s:%d:chunk%d:%v", name, cfgSeed, c, o.Choices))
